@@ -139,6 +139,10 @@ class Rename:
             raise exceptions.RefactoringError(
                 f"Invalid refactoring target name. '{new_name}' is a Python keyword."
             )
+        if self._is_renaming_a_module() and not new_name.isidentifier():
+            raise exceptions.RefactoringError(
+                f"Invalid module name. '{new_name}' is not a Python identifier."
+            )
 
     def _is_allowed_to_move(self, resources, resource):
         if resource.is_folder():
